@@ -379,7 +379,7 @@ class RefMachine:
         elif k == "call":
             _, assignees, fname, args, kw = op
             a = [ev(x) for x in args]
-            kwv = {n: ev(kw[n]) for n in sorted(kw)}
+            kwv = {n: ev(kw[n]) for n in T.kw_names(kw)}
             res = ev.call(fname, a, kwv)
             check_exact(res)
             if len(assignees) == 0:
@@ -444,6 +444,7 @@ class RefMachine:
     # -- step protocol
     def single_step(self):
         """Returns (events, outcome) with outcome in completed/failed/('raised', name)."""
+        T.set_kw_order(self.method)
         phase = self.phases[self.next_phase]
         self.cur_phase = phase["name"]
         self.next_phase = phase["next"]
